@@ -7,8 +7,10 @@ import (
 	"fmt"
 	"hash/fnv"
 	"math/big"
+	"os"
 	"sort"
 	"strings"
+	"sync"
 )
 
 type Sort string
@@ -21,7 +23,20 @@ const (
 	SF32  Sort = "(_ FloatingPoint 8 24)"
 )
 
-const MIW = 192 // width of spec-level "mathint"
+// MIW is the width of spec-level "mathint" values (signed). 136 bits hold the
+// product of two 64-bit machine values plus several further additions or a
+// factor of 1000 applied to a 64-bit value; specs never multiply more than two
+// full-width machine values.
+var MIW = func() int {
+	if v := os.Getenv("GOVC_MIW"); v != "" {
+		var n int
+		fmt.Sscanf(v, "%d", &n)
+		if n >= 72 {
+			return n
+		}
+	}
+	return 136
+}()
 
 func SBV(n int) Sort { return Sort(fmt.Sprintf("(_ BitVec %d)", n)) }
 func SArr(k, v Sort) Sort {
@@ -64,10 +79,19 @@ type Ctx struct {
 	Assumes []Term
 	// bookkeeping for the evidence file
 	Notes map[string]bool
+	// slicing index (slice.go)
+	info       []lineInfo
+	byName     map[string]int
+	assumeSyms [][]string
+	assumeFree []map[string]bool
+	axiomFree  map[int]map[string]bool
+	freeMemo   map[int][]string
+	NoSlice    bool
+	mu         sync.Mutex
 }
 
 func NewCtx() *Ctx {
-	c := &Ctx{ufs: map[string]bool{}, strLits: map[string]Term{}, sorts: map[string]bool{}, names: map[string]bool{}, Notes: map[string]bool{}}
+	c := &Ctx{ufs: map[string]bool{}, strLits: map[string]Term{}, sorts: map[string]bool{}, names: map[string]bool{}, Notes: map[string]bool{}, byName: map[string]int{}}
 	c.lines = append(c.lines, "(declare-fun strlen ((_ BitVec 64)) (_ BitVec 64))")
 	c.lines = append(c.lines, "(assert (= (strlen (_ bv0 64)) (_ bv0 64)))")
 	c.ufs["strlen"] = true
@@ -186,18 +210,33 @@ func (c *Ctx) Assume(t Term) {
 
 // Script renders a complete query: prelude, the first nAssume assumptions, and
 // the negated goal.
-func (c *Ctx) Script(nAssume int, negGoal Term, wantModel bool) string {
+func (c *Ctx) Script(nAssume int, negGoal Term, wantModel bool, extra ...Term) string {
 	var b strings.Builder
 	if wantModel {
 		b.WriteString("(set-option :produce-models true)\n")
 	}
 	b.WriteString("(set-logic ALL)\n")
-	for _, l := range c.lines {
-		b.WriteString(l)
-		b.WriteByte('\n')
-	}
-	for i := 0; i < nAssume && i < len(c.Assumes); i++ {
-		fmt.Fprintf(&b, "(assert %s)\n", c.Assumes[i].S)
+	if c.NoSlice {
+		for _, l := range c.lines {
+			b.WriteString(l)
+			b.WriteByte('\n')
+		}
+		for i := 0; i < nAssume && i < len(c.Assumes); i++ {
+			fmt.Fprintf(&b, "(assert %s)\n", c.Assumes[i].S)
+		}
+	} else {
+		keepLine, keepAssume := c.sliceFor(nAssume, append([]Term{negGoal}, extra...)...)
+		for i, l := range c.lines {
+			if keepLine[i] {
+				b.WriteString(l)
+				b.WriteByte('\n')
+			}
+		}
+		for i := range keepAssume {
+			if keepAssume[i] {
+				fmt.Fprintf(&b, "(assert %s)\n", c.Assumes[i].S)
+			}
+		}
 	}
 	fmt.Fprintf(&b, "(assert %s)\n", negGoal.S)
 	b.WriteString("(check-sat)\n")
